@@ -61,6 +61,8 @@ BY_CONTRACT = {
 PROTOCOL_METHODS = {"__anext__", "__aiter__", "aclose", "athrow", "asend", "__aenter__", "__aexit__", "__enter__",
                     "__exit__", "__iter__", "__next__"}
 # iterable parameters that are iterated directly by design
+SYNC_ABCS = {"Iterable", "Iterator", "Sequence", "Collection", "Sized", "Reversible", "Generator", "list", "tuple",
+             "set", "dict", "frozenset", "range"}
 DIRECT_ITERATION_OK = {
     "_core._aiter_sync": "the uniform adapter itself",
     "asynctools.any_iter": "adapter that resolves awaitable layers before choosing the protocol",
@@ -298,6 +300,19 @@ def r03_2(ctx) -> None:
                     bad += 1
                     ctx.fail("R03.2", u, n.ast, "iterable parameter is consumed by a synchronous Python builtin: an "
                              "async iterable argument fails or is handled on a different path than a sync one", node=n)
+        for c in own_nodes(u.node):
+            if isinstance(c, ast.Call) and norm(c.func) in ("isinstance", "issubclass") and len(c.args) == 2 \
+                    and isinstance(c.args[0], (ast.Name, ast.NamedExpr)):
+                nm = c.args[0].id if isinstance(c.args[0], ast.Name) else norm(c.args[0].target)
+                if nm not in iter_params or u.short in DIRECT_ITERATION_OK:
+                    continue
+                classes = c.args[1].elts if isinstance(c.args[1], ast.Tuple) else [c.args[1]]
+                sync = [norm(k) for k in classes if norm(k).split(".")[-1] in SYNC_ABCS]
+                if sync:
+                    bad += 1
+                    ctx.fail("R03.2", u, c, f"iterable parameter `{nm}` is type-tested against the synchronous "
+                             f"{sync}: objects that are iterable only through __getitem__ (or sync/async flavours) "
+                             f"are treated differently, although aiter() accepts them", line=c.lineno)
         if not bad:
             ctx.ok("R03.2", u, f"iterable parameter(s) {sorted(iter_params)} only reach aiter / ScopedIter / library tools")
 
